@@ -81,6 +81,18 @@ theorem T14_5_tangent (A : Matrix n n F) (hA : IsUnit A.det) (hs : Aᵀ = A) (p 
   refine ⟨dotProduct_comm _ _, ?_, Matrix.nonsing_inv_nonsing_inv A hA⟩
   rw [Matrix.mulVec_mulVec, Matrix.nonsing_inv_mul _ hA, Matrix.one_mulVec, dotProduct_comm]
 
+/-- **is_tangent(h) ⇔ h touches the quadric**: `hᵀ A⁻¹ h = 0` (what `dual.contains(h)` tests) holds exactly when `h` is the
+    tangent hyperplane `A p` at a point `p` of the quadric — for every dimension -/
+theorem T14_5_is_tangent_iff (A : Matrix n n F) (hA : IsUnit A.det) (h : n → F) :
+    h ⬝ᵥ (A⁻¹).mulVec h = 0 ↔ ∃ p : n → F, p ⬝ᵥ A.mulVec p = 0 ∧ A.mulVec p = h := by
+  constructor
+  · intro ht
+    refine ⟨(A⁻¹).mulVec h, ?_, ?_⟩
+    · rw [Matrix.mulVec_mulVec, Matrix.mul_nonsing_inv _ hA, Matrix.one_mulVec, dotProduct_comm]; exact ht
+    · rw [Matrix.mulVec_mulVec, Matrix.mul_nonsing_inv _ hA, Matrix.one_mulVec]
+  · rintro ⟨p, hp, rfl⟩
+    rw [Matrix.mulVec_mulVec, Matrix.nonsing_inv_mul _ hA, Matrix.one_mulVec, dotProduct_comm]; exact hp
+
 theorem T14_5_polar_reciprocity (A : Matrix n n F) (hs : Aᵀ = A) (x y : n → F) :
     A.mulVec x ⬝ᵥ y = A.mulVec y ⬝ᵥ x := by
   rw [dotProduct_comm (A.mulVec x) y, Matrix.dotProduct_mulVec, ← Matrix.mulVec_transpose, hs]
